@@ -1,0 +1,82 @@
+//! Hooks into `node` (child module: sees the private `Node` / `NodeInner`).
+//! A thin handle around the crate-private `Node` so the external harness in /verif can drive the
+//! real validation / replication / query code over a `Network` whose command channels it owns.
+
+use super::{Node, NodeInner};
+use crate::error::Result;
+use crate::event::NodeEventsChannel;
+use ant_evm::{EvmNetwork, RewardsAddress};
+use ant_networking::Network;
+use ant_protocol::{
+    messages::{Query, Response},
+    NetworkAddress,
+};
+use libp2p::{
+    kad::{Record, RecordKey},
+    Multiaddr, PeerId,
+};
+use std::sync::Arc;
+
+/// Handle around the crate-private `Node`.
+#[derive(Clone)]
+pub struct VerifNode(Node);
+
+impl VerifNode {
+    /// Build a `Node` around an existing `Network` handle (no swarm driver is started).
+    pub fn new(network: Network, evm_network: EvmNetwork, reward_address: RewardsAddress) -> Self {
+        let inner = NodeInner {
+            network,
+            events_channel: NodeEventsChannel::default(),
+            initial_peers: vec![],
+            reward_address,
+            #[cfg(feature = "open-metrics")]
+            metrics_recorder: None,
+            evm_network,
+        };
+        Self(Node {
+            inner: Arc::new(inner),
+        })
+    }
+
+    /// `Node::validate_and_store_record` (client PUT path).
+    pub async fn validate_and_store_record(&self, record: Record) -> Result<()> {
+        self.0.validate_and_store_record(record).await
+    }
+
+    /// `Node::store_replicated_in_record` (replication path).
+    pub async fn store_replicated_in_record(&self, record: Record) -> Result<()> {
+        self.0.store_replicated_in_record(record).await
+    }
+
+    /// `Node::handle_query`.
+    pub async fn handle_query(
+        network: &Network,
+        query: Query,
+        payment_address: RewardsAddress,
+    ) -> Response {
+        Node::handle_query(network, query, payment_address).await
+    }
+
+    /// `Node::fetch_replication_keys_without_wait`.
+    pub fn fetch_replication_keys_without_wait(
+        &self,
+        keys_to_fetch: Vec<(PeerId, RecordKey)>,
+    ) -> Result<()> {
+        self.0.fetch_replication_keys_without_wait(keys_to_fetch)
+    }
+
+    /// `Node::calculate_get_closest_peers`.
+    pub fn calculate_get_closest_peers(
+        peer_addrs: Vec<(PeerId, Vec<Multiaddr>)>,
+        target: NetworkAddress,
+        num_of_peers: Option<usize>,
+        range: Option<[u8; 32]>,
+    ) -> Vec<(NetworkAddress, Vec<Multiaddr>)> {
+        Node::calculate_get_closest_peers(peer_addrs, target, num_of_peers, range)
+    }
+
+    /// `Node::try_interval_replication`.
+    pub fn try_interval_replication(network: Network) {
+        Node::try_interval_replication(network)
+    }
+}
